@@ -20,6 +20,7 @@ import (
 	"fmt"
 	"sync"
 	"sync/atomic"
+	"unsafe"
 
 	"github.com/bytedance/gopkg/lang/dirtmake"
 )
@@ -70,6 +71,7 @@ type UnsafeLinkBuffer struct {
 
 // Len implements Reader.
 func (b *UnsafeLinkBuffer) Len() int {
+	vp(vpLenLoad, unsafe.Pointer(b), 0, 0)
 	l := atomic.LoadInt64(&b.length)
 	return int(l)
 }
@@ -794,6 +796,7 @@ func (b *UnsafeLinkBuffer) recalLen(delta int) (length int) {
 		b.caches = append(b.caches, b.cachePeek)
 		b.cachePeek = nil
 	}
+	vp(vpLenAdd, unsafe.Pointer(b), int64(delta), 0)
 	return int(atomic.AddInt64(&b.length, int64(delta)))
 }
 
